@@ -57,7 +57,7 @@ Lemma parse_next_unfold body input :
     | Some (l, r2) =>
       if t =? h3FrameData then (H3Ok (H3Data l), r2)
       else if t =? h3FrameHeaders then (H3Ok (H3Headers l), r2)
-      else if t =? h3FrameSettings then h3_parse_settings_frame r2 l
+      else if t =? h3FrameSettings then h3_settings_arm body (h3_parse_settings_frame r2 l)
       else if memN t h3ReservedTypes then (H3Err (H3Reserved t), r2)
       else if lenN r2 <? l then (H3Err (trunc_err body), [])
       else h3_parse_next_b body (skipn (N.to_nat l) r2)
@@ -77,7 +77,7 @@ Lemma parse_next_header body et el t l rest : is_enc et t -> is_enc el l ->
   h3_parse_next_b body (et ++ el ++ rest) =
     if t =? h3FrameData then (H3Ok (H3Data l), rest)
     else if t =? h3FrameHeaders then (H3Ok (H3Headers l), rest)
-    else if t =? h3FrameSettings then h3_parse_settings_frame rest l
+    else if t =? h3FrameSettings then h3_settings_arm body (h3_parse_settings_frame rest l)
     else if memN t h3ReservedTypes then (H3Err (H3Reserved t), rest)
     else if lenN rest <? l then (H3Err (trunc_err body), [])
     else h3_parse_next_b body (skipn (N.to_nat l) rest).
@@ -586,6 +586,9 @@ Proof.
   exists (vi_form n v). split; [exists n; auto|]. rewrite <- F. symmetry. apply firstn_skipn.
 Qed.
 
+Lemma settings_arm_ok body x f r : h3_settings_arm body x = (H3Ok f, r) -> x = (H3Ok f, r).
+Proof. destruct x as [[y|e] r0]; cbn; [tauto|]. destruct e; cbn; try tauto; discriminate. Qed.
+
 Definition skippable (t : N) : Prop :=
   t <> h3FrameData /\ t <> h3FrameHeaders /\ t <> h3FrameSettings /\ ~ In t h3ReservedTypes.
 
@@ -621,7 +624,7 @@ Proof.
   destruct (N.eqb_spec t h3FrameHeaders) as [T1|T1].
   { inversion H; subst. exists [], et, el, h3FrameHeaders, l, rest. repeat split; try assumption; [constructor|]. right. left. auto. }
   destruct (N.eqb_spec t h3FrameSettings) as [T4|T4].
-  { unfold h3_parse_settings_frame in H.
+  { apply settings_arm_ok in H. unfold h3_parse_settings_frame in H.
     destruct (N.ltb_spec h3SettingsMaxLen l); [discriminate|].
     destruct (N.ltb_spec (lenN r2) l); [discriminate|].
     destruct (h3_parse_settings_payload (firstn (N.to_nat l) r2)) as [s|] eqn:PS; [|discriminate].
@@ -655,27 +658,24 @@ Proof.
   - rewrite (h3_unknown_frame_skipped body et el t p r Et El N0 N1 N4 NR). exact IH.
 Qed.
 
-(* conversely, on a message-body stream a clean io.EOF means exactly that (or a SETTINGS frame, which
-   has no business on a body stream, whose own payload reader reports its short payload as io.EOF):
-   a stream cut inside a frame type, a frame length or a skipped payload is never a clean end *)
-Theorem h3_body_eof_inv : forall input r, h3_parse_next_b true input = (H3Err H3EOF, r) ->
-  skipped_frames input \/
-  exists sk et el l bd, skipped_frames sk /\ is_enc et h3FrameSettings /\ is_enc el l /\
-    input = sk ++ et ++ el ++ bd /\ fst (h3_parse_settings_frame bd l) = H3Err H3EOF.
+(* conversely, on a message-body stream a clean io.EOF means exactly that: a stream cut inside a
+   frame type, a frame length, a skipped payload or a SETTINGS frame is never a clean end *)
+Lemma settings_arm_body_not_eof x r : h3_settings_arm true x <> (H3Err H3EOF, r).
+Proof. destruct x as [[y|e] r0]; cbn; [discriminate|]. destruct e; cbn; discriminate. Qed.
+
+Theorem h3_body_eof_inv : forall input r, h3_parse_next_b true input = (H3Err H3EOF, r) -> skipped_frames input.
 Proof.
   intro input. remember (length input) as n eqn:Hn. revert input Hn.
   induction n as [n IH] using lt_wf_ind. intros input Hn r H.
   rewrite parse_next_unfold in H.
   destruct (vi_read input) as [[t r1]|] eqn:R1.
-  2:{ destruct input; [left; constructor|]. cbn [trunc_err] in H. discriminate. }
+  2:{ destruct input; [constructor|]. cbn [trunc_err] in H. discriminate. }
   destruct (vi_read r1) as [[l r2]|] eqn:R2; [|cbn [trunc_err] in H; discriminate].
   destruct (vi_read_inv _ _ _ R1) as (et & Et & E1). destruct (vi_read_inv _ _ _ R2) as (el & El & E2).
   pose proof (is_enc_nonempty _ _ Et) as NEt.
   destruct (N.eqb_spec t h3FrameData) as [T0|T0]; [discriminate|].
   destruct (N.eqb_spec t h3FrameHeaders) as [T1|T1]; [discriminate|].
-  destruct (N.eqb_spec t h3FrameSettings) as [T4|T4].
-  { right. exists [], et, el, l, r2. subst t. repeat split; try assumption; [constructor| |rewrite H; reflexivity].
-    rewrite E1, E2. reflexivity. }
+  destruct (N.eqb_spec t h3FrameSettings) as [T4|T4]; [exfalso; exact (settings_arm_body_not_eof _ _ H)|].
   destruct (memN t h3ReservedTypes) eqn:M; [discriminate|].
   destruct (N.ltb_spec (lenN r2) l); [cbn [trunc_err] in H; discriminate|].
   assert (SK : skippable t).
@@ -683,12 +683,15 @@ Proof.
   set (p := firstn (N.to_nat l) r2) in *. set (r3 := skipn (N.to_nat l) r2) in *.
   assert (Lp : lenN p = l) by (unfold p, lenN in *; rewrite firstn_length; lia).
   assert (E3 : r2 = p ++ r3) by (symmetry; apply firstn_skipn).
-  destruct (IH (length r3)) with (input := r3) (r := r) as [SKs|(sk & et' & el' & l' & bd & SKs & Et' & El' & E' & PS)]; [|reflexivity|exact H| |].
-  { subst n. rewrite E1, E2, E3. rewrite !app_length. lia. }
-  - left. rewrite E1, E2, E3. apply (sk_cons et el t p r3); try assumption. rewrite Lp. exact El.
-  - right. exists (et ++ el ++ p ++ sk), et', el', l', bd. repeat split; try assumption.
-    + apply (sk_cons et el t p sk); try assumption. rewrite Lp. exact El.
-    + rewrite E1, E2, E3, E'. rewrite <- !app_assoc. reflexivity.
+  assert (SKs : skipped_frames r3).
+  { apply (IH (length r3)) with (r := r); [|reflexivity|exact H]. subst n. rewrite E1, E2, E3. rewrite !app_length. lia. }
+  rewrite E1, E2, E3. apply (sk_cons et el t p r3); try assumption. rewrite Lp. exact El.
+Qed.
+
+(* so: on a body stream, io.EOF <-> the stream is a run of complete skipped frames *)
+Theorem h3_body_eof_iff input : (exists r, h3_parse_next_b true input = (H3Err H3EOF, r)) <-> skipped_frames input.
+Proof.
+  split; [intros [r H]; eapply h3_body_eof_inv; exact H|]. intro SK. exists []. apply h3_skipped_then_end. exact SK.
 Qed.
 
 (* the body-stream flag changes nothing but the name of the truncation error: same frames, same
@@ -713,7 +716,7 @@ Proof.
   destruct (t =? h3FrameData); [cbn; split; [reflexivity|reflexivity]|].
   destruct (t =? h3FrameHeaders); [cbn; split; [reflexivity|reflexivity]|].
   destruct (t =? h3FrameSettings).
-  { split; [|reflexivity]. destruct (fst (h3_parse_settings_frame r2 l)) as [x|e]; cbn; [reflexivity|destruct e; trivial]. }
+  { destruct (h3_parse_settings_frame r2 l) as [[x|e] r0]; cbn; [split; reflexivity|]. destruct e; cbn; split; trivial; discriminate. }
   destruct (memN t h3ReservedTypes); [cbn; split; [reflexivity|discriminate]|].
   destruct (lenN r2 <? l); [cbn; split; [trivial|discriminate]|].
   apply (IH (length (skipn (N.to_nat l) r2))); [|reflexivity]. rewrite skipn_length. lia.
